@@ -1,9 +1,15 @@
 package props
 
 import (
+	"context"
 	"errors"
 	"fmt"
+	"io"
+	"net/url"
+	"os"
 	"reflect"
+	"runtime"
+	"strings"
 	"testing"
 	"testing/synctest"
 	"time"
@@ -24,6 +30,37 @@ type scripted struct {
 	ends      []time.Time
 	runaway   bool
 	same      int // consecutive attempts started at the same (virtual) instant
+	errKind   int // which error value failed attempts return (varied per attempt)
+}
+
+// netTimeout is a net.Error-shaped failure.
+type netTimeout struct{}
+
+func (netTimeout) Error() string   { return "i/o timeout" }
+func (netTimeout) Timeout() bool   { return true }
+func (netTimeout) Temporary() bool { return true }
+
+const nErrKinds = 8
+
+// failure returns the error of a failed attempt: whatever its kind, a failed attempt is just a failed attempt.
+func failure(kind int, u string) error {
+	switch kind % nErrKinds {
+	case 1:
+		return io.EOF
+	case 2:
+		return &url.Error{Op: "Get", URL: u, Err: context.DeadlineExceeded} // what an http.Client with its own Timeout returns
+	case 3:
+		return fmt.Errorf("wrapped: %w", context.Canceled)
+	case 4:
+		return os.ErrDeadlineExceeded
+	case 5:
+		return netTimeout{}
+	case 6:
+		return errors.New("timeout")
+	case 7:
+		return context.DeadlineExceeded
+	}
+	return errors.New("scripted failure")
 }
 
 const runawayAttempts = 20000
@@ -49,23 +86,23 @@ func (s *scripted) Get(url string) (map[string][]string, []byte, error) {
 	if len(s.starts) == s.successAt {
 		return s.header, s.body, nil
 	}
-	return map[string][]string{"X-Failed": {"1"}}, []byte("failure body"), errors.New("scripted failure")
+	return map[string][]string{"X-Failed": {"1"}}, []byte("failure body"), failure(s.errKind+len(s.starts)*(s.errKind/nErrKinds), url)
 }
 
 type c20Case struct {
 	Timeout, MaxDelay, Dur time.Duration
 	SuccessAt              int
 	HeaderKind, BodyLen    int
+	ErrKind                int // < nErrKinds: every failure of that kind; >= nErrKinds: kinds vary per attempt
 }
 
 func (c c20Case) String() string {
-	return fmt.Sprintf("timeout=%v maxRetryDelay=%v attemptDuration=%v successAt=%d", c.Timeout, c.MaxDelay, c.Dur, c.SuccessAt)
+	return fmt.Sprintf("timeout=%v maxRetryDelay=%v attemptDuration=%v successAt=%d errKind=%d", c.Timeout, c.MaxDelay, c.Dur, c.SuccessAt, c.ErrKind)
 }
 
-// runCase executes the retrying getter inside the current bubble and applies the oracle.
-// It returns (key, detail) on violation.
-func runCase(c c20Case, s *gen.Stream) (string, string) {
-	sg := &scripted{successAt: c.SuccessAt, dur: c.Dur}
+// newScripted builds the wrapped getter of one call.
+func newScripted(c c20Case, s *gen.Stream) (*scripted, []byte) {
+	sg := &scripted{successAt: c.SuccessAt, dur: c.Dur, errKind: c.ErrKind}
 	switch c.HeaderKind {
 	case 0:
 		sg.header = nil
@@ -81,10 +118,11 @@ func runCase(c c20Case, s *gen.Stream) (string, string) {
 	if sg.body != nil {
 		wantBody = append([]byte{}, sg.body...)
 	}
-	r := &trust.RetryHTTPSGetter{Timeout: c.Timeout, MaxRetryDelay: c.MaxDelay, Getter: sg}
-	t0 := time.Now()
-	h, b, err := r.Get("https://example.test/x")
-	elapsed := time.Since(t0)
+	return sg, wantBody
+}
+
+// judge applies the oracle to one finished call. It returns (key, detail) on violation.
+func judge(c c20Case, sg *scripted, wantBody []byte, h map[string][]string, b []byte, err error, elapsed time.Duration) (string, string) {
 	attempts := len(sg.starts)
 	if sg.runaway {
 		return "busy-loop", fmt.Sprintf("%s: %d attempts in a row without the clock advancing", c, runawayAttempts)
@@ -110,11 +148,6 @@ func runCase(c c20Case, s *gen.Stream) (string, string) {
 		if string(b) != string(wantBody) || (b == nil) != (wantBody == nil) {
 			return "body-modified", fmt.Sprintf("%s: got %d bytes want %d", c, len(b), len(wantBody))
 		}
-		time.Sleep(3 * time.Hour) // virtual: would expose a background retry
-		synctest.Wait()
-		if len(sg.starts) != attempts {
-			return "attempt-after-success", fmt.Sprintf("%s: %d further attempts after the success was returned", c, len(sg.starts)-attempts)
-		}
 		return "", ""
 	}
 	// error outcome
@@ -136,11 +169,77 @@ func runCase(c c20Case, s *gen.Stream) (string, string) {
 	return "", ""
 }
 
+// runCase executes the retrying getter inside the current bubble and applies the oracle.
+// It returns (key, detail) on violation.
+func runCase(c c20Case, s *gen.Stream) (string, string) {
+	sg, wantBody := newScripted(c, s)
+	r := &trust.RetryHTTPSGetter{Timeout: c.Timeout, MaxRetryDelay: c.MaxDelay, Getter: sg}
+	t0 := time.Now()
+	h, b, err := r.Get("https://example.test/x")
+	elapsed := time.Since(t0)
+	attempts := len(sg.starts)
+	if key, detail := judge(c, sg, wantBody, h, b, err, elapsed); key != "" {
+		return key, detail
+	}
+	if err == nil {
+		time.Sleep(3 * time.Hour) // virtual: would expose a background retry
+		synctest.Wait()
+		if len(sg.starts) != attempts {
+			return "attempt-after-success", fmt.Sprintf("%s: %d further attempts after the success was returned", c, len(sg.starts)-attempts)
+		}
+	}
+	return "", ""
+}
+
+// byURL dispatches to one scripted getter per URL, so that several callers can share one retrying getter.
+type byURL map[string]*scripted
+
+func (m byURL) Get(u string) (map[string][]string, []byte, error) { return m[u].Get(u) }
+
+// runConcurrent lets len(cs) callers use ONE retrying getter at overlapping times (same Timeout and
+// MaxRetryDelay, taken from cs[0]); every call is judged by the same oracle as a lone call, measured from its own start.
+func runConcurrent(cs []c20Case, s *gen.Stream) (string, string) {
+	type result struct {
+		h       map[string][]string
+		b       []byte
+		err     error
+		elapsed time.Duration
+	}
+	m := byURL{}
+	sgs := make([]*scripted, len(cs))
+	wants := make([][]byte, len(cs))
+	for i := range cs {
+		cs[i].Timeout, cs[i].MaxDelay = cs[0].Timeout, cs[0].MaxDelay
+		sgs[i], wants[i] = newScripted(cs[i], s)
+		m[fmt.Sprintf("https://example.test/%d", i)] = sgs[i]
+	}
+	r := &trust.RetryHTTPSGetter{Timeout: cs[0].Timeout, MaxRetryDelay: cs[0].MaxDelay, Getter: m}
+	res := make([]result, len(cs))
+	done := make(chan int, len(cs))
+	for i := range cs {
+		go func(i int) {
+			t0 := time.Now()
+			h, b, err := r.Get(fmt.Sprintf("https://example.test/%d", i))
+			res[i] = result{h, b, err, time.Since(t0)}
+			done <- i
+		}(i)
+	}
+	for range cs {
+		<-done
+	}
+	for i, c := range cs {
+		if key, detail := judge(c, sgs[i], wants[i], res[i].h, res[i].b, res[i].err, res[i].elapsed); key != "" {
+			return key + ":concurrent", fmt.Sprintf("caller %d of %d sharing one retrying getter: %s", i+1, len(cs), detail)
+		}
+	}
+	return "", ""
+}
+
 var durs = []time.Duration{0, time.Millisecond, time.Second, 4 * time.Second, 5 * time.Second, 30 * time.Second, 2 * time.Minute, 10 * time.Minute}
 
 func fail(t gen.TB, key, detail string, c c20Case) {
 	gen.Fail(t, gen.Violation{Key: key, Oracle: "first success returned intact with no further attempt; waits positive and at most MaxRetryDelay; error by roughly Timeout + one delay", Detail: detail,
-		Replay: map[string]any{"kind": "retry", "timeout_ns": int64(c.Timeout), "max_ns": int64(c.MaxDelay), "dur_ns": int64(c.Dur), "success_at": c.SuccessAt, "header_kind": c.HeaderKind, "body_len": c.BodyLen}})
+		Replay: map[string]any{"kind": "retry", "timeout_ns": int64(c.Timeout), "max_ns": int64(c.MaxDelay), "dur_ns": int64(c.Dur), "success_at": c.SuccessAt, "header_kind": c.HeaderKind, "body_len": c.BodyLen, "err_kind": c.ErrKind}})
 }
 
 func TestC20(t *testing.T) {
@@ -170,7 +269,7 @@ func TestC20(t *testing.T) {
 						if !gen.ShardOwns(idx) {
 							continue
 						}
-						c := c20Case{Timeout: to, MaxDelay: mx, Dur: d, SuccessAt: k, HeaderKind: idx % 3, BodyLen: []int{-1, 0, 17, 1 << 16}[idx%4]}
+						c := c20Case{Timeout: to, MaxDelay: mx, Dur: d, SuccessAt: k, HeaderKind: idx % 3, BodyLen: []int{-1, 0, 17, 1 << 16}[idx%4], ErrKind: (idx / 3) % (2 * nErrKinds)}
 						var key, detail string
 						synctest.Test(t, func(t *testing.T) {
 							key, detail = runCase(c, gen.NewStream(uint64(idx), "c20"))
@@ -202,6 +301,7 @@ func TestC20(t *testing.T) {
 			SuccessAt:  rapid.OneOf(rapid.Just(0), rapid.IntRange(1, 12), rapid.IntRange(1, 200)).Draw(t, "successAt"),
 			HeaderKind: rapid.IntRange(0, 2).Draw(t, "hdr"),
 			BodyLen:    rapid.SampledFrom([]int{-1, 0, 1, 300, 1 << 20}).Draw(t, "body"),
+			ErrKind:    rapid.IntRange(0, 2*nErrKinds-1).Draw(t, "errkind"),
 		}
 		if c.MaxDelay < time.Microsecond && c.Dur == 0 {
 			c.Dur = time.Millisecond
@@ -224,6 +324,76 @@ func TestC20(t *testing.T) {
 		}
 		gen.Sample("random", c.String())
 	})
+	// (c) several callers sharing one retrying getter at overlapping times (the default getter is one shared value)
+	gen.Direct(t, "concurrent-callers", func(t *testing.T) {
+		n := gen.N(600, 60000)
+		tos := []time.Duration{0, time.Second, 5 * time.Second, 2 * time.Minute}
+		mxs := []time.Duration{time.Millisecond, time.Second, 4 * time.Second, 30 * time.Second}
+		ds := []time.Duration{0, time.Millisecond, 250 * time.Millisecond, 3 * time.Second}
+		for i := 0; i < n; i++ {
+			s := gen.NewStream(gen.ProcSeed()+uint64(i), "c20conc")
+			cs := make([]c20Case, 2+s.Intn(4))
+			to, mx := tos[s.Intn(len(tos))], mxs[s.Intn(len(mxs))]
+			for j := range cs {
+				cs[j] = c20Case{Timeout: to, MaxDelay: mx, Dur: ds[s.Intn(len(ds))], SuccessAt: s.Intn(7) * s.Intn(2), HeaderKind: s.Intn(3), BodyLen: []int{-1, 0, 300}[s.Intn(3)], ErrKind: s.Intn(2 * nErrKinds)}
+			}
+			key, detail := runConcurrentWatched(t, cs, s)
+			gen.EvalN(len(cs))
+			if key == "inconclusive" {
+				gen.Inconclusive(detail)
+				return
+			}
+			if key != "" {
+				var calls []any
+				for _, c := range cs {
+					calls = append(calls, map[string]any{"timeout_ns": int64(c.Timeout), "max_ns": int64(c.MaxDelay), "dur_ns": int64(c.Dur), "success_at": c.SuccessAt, "header_kind": c.HeaderKind, "body_len": c.BodyLen, "err_kind": c.ErrKind})
+				}
+				gen.Fail(t, gen.Violation{Key: key, Oracle: "every caller of a shared retrying getter gets its own first success intact, or its own error by roughly Timeout + one delay", Detail: detail,
+					Replay: map[string]any{"kind": "retry-concurrent", "calls": calls}})
+				return
+			}
+			failing := 0
+			for _, c := range cs {
+				if c.SuccessAt != 1 {
+					failing++
+				}
+			}
+			if failing >= 2 {
+				gen.NonTrivial("concurrent", fmt.Sprint(cs))
+			}
+			gen.Class(fmt.Sprintf("concurrent-callers:%d", len(cs)))
+			if i < 5 {
+				gen.Sample("concurrent", fmt.Sprint(cs))
+			}
+		}
+	})
+}
+
+// runConcurrentWatched runs the callers in a bubble of their own under a real-time watchdog. Inside a
+// bubble the virtual clock only advances when every goroutine is durably blocked; a caller parked on a
+// lock that a sleeping caller holds is not, so such a getter stalls the bubble for good. The watchdog
+// then inspects the goroutine stacks: a caller waiting for a lock inside RetryHTTPSGetter.Get while
+// another one sleeps there is reported (callers are serialised behind each other's retry loops, so the
+// give-up bound cannot hold for the later ones); any other stall is inconclusive.
+func runConcurrentWatched(t *testing.T, cs []c20Case, s *gen.Stream) (key, detail string) {
+	done := make(chan struct{})
+	go func() {
+		defer close(done)
+		synctest.Test(t, func(t *testing.T) { key, detail = runConcurrent(cs, s) })
+	}()
+	select {
+	case <-done:
+		return key, detail
+	case <-time.After(45 * time.Second):
+	}
+	buf := make([]byte, 1<<20)
+	buf = buf[:runtime.Stack(buf, true)]
+	for _, g := range strings.Split(string(buf), "\n\n") {
+		if strings.Contains(g, "trust.(*RetryHTTPSGetter).Get") && (strings.Contains(g, "sync.(*Mutex).Lock") || strings.Contains(g, "sync.(*RWMutex).") || strings.Contains(g, "sync.runtime_Semacquire")) {
+			return "callers-block-each-other:concurrent", fmt.Sprintf("%d callers sharing one retrying getter: a caller waits for a lock inside RetryHTTPSGetter.Get while another caller sleeps between attempts, so the later caller cannot give up by its own Timeout + one delay (settings %v)", len(cs), cs)
+		}
+	}
+	return "inconclusive", "concurrent callers did not finish within 45 s of real time and no caller is waiting for a lock"
 }
 
 func minDur(a, b time.Duration) time.Duration {
